@@ -586,9 +586,10 @@ def pending_idiom(p: Program):
     REF_BOUNDARY = LB + b"--" + B + b"(?:--" + H + b"*" + LB + b"?|" + H + b"*" + LB + b")"
     out = {}
     for attr, (pat, _flags, _node) in decoder_patterns(p, B).items():
-        if not isinstance(pat, bytes) or not pat.endswith(b"\\Z"):
+        multiline_dollar = isinstance(pat, bytes) and pat.endswith(b"$") and not pat.endswith(b"\\$") and isinstance(_flags, int) and bool(_flags & _re.MULTILINE)
+        if not isinstance(pat, bytes) or not (pat.endswith(b"\\Z") or multiline_dollar):
             continue
-        body = pat[:-2]
+        body = pat[:-2] if pat.endswith(b"\\Z") else pat[:-1]
         try:
             al = rx.alphabet_for([rx.Regex(REF_BOUNDARY), rx.Regex(body)])
             db, dp = rx.dfa_of(REF_BOUNDARY, al), rx.dfa_of(body, al)
@@ -601,5 +602,9 @@ def pending_idiom(p: Program):
             starts_lb = not dp.accepts_empty() and fs <= {10, 13}
         except rx.Unsupported:
             continue
+        if multiline_dollar:
+            # `$` under re.MULTILINE also matches before EVERY line break, not only at the end of the buffer: the search finds the FIRST
+            # line break that is followed by a (possibly empty) delimiter prefix and a line end - the hold-back is not bounded
+            k = None
         out[attr] = (w is None and starts_lb, w, k, pat)
     return out
